@@ -3,6 +3,7 @@ package alephium
 import (
 	"context"
 	"encoding/hex"
+	"time"
 
 	sdk "github.com/alephium/go-sdk"
 	"github.com/alephium/wormhole-fork/node/pkg/vaa"
@@ -60,9 +61,12 @@ func (w *Watcher) handleObsvRequest(ctx context.Context, logger *zap.Logger, cli
 				continue
 			}
 
+			now := time.Now().UnixMilli()
 			confirmed := make([]*reobservedEvent, 0)
 			for _, event := range events {
-				if event.header.Height+int32(event.confirmations) <= *currentHeight {
+				// same confirmation rule as the polling path: enough blocks and enough wall-clock time
+				duration := getConfirmationDuration(w.isMainnet, event.msg.IsTransferTokenVAA(), event.confirmations)
+				if event.header.Height+int32(event.confirmations) <= *currentHeight && event.header.Timestamp+duration <= now {
 					logger.Info("re-observed event",
 						zap.String("txId", txId),
 						zap.String("blockHash", blockHash),
@@ -156,6 +160,7 @@ func (w *Watcher) getGovernanceEventsByTxId(
 			msg.consistencyLevel,
 			header,
 			txId,
+			msg,
 		})
 	}
 	return reobservedEvents, nil
@@ -166,4 +171,5 @@ type reobservedEvent struct {
 	confirmations uint8
 	header        *sdk.BlockHeaderEntry
 	txId          string
+	msg           *WormholeMessage
 }
